@@ -245,7 +245,7 @@ func StatesToIndexes(allStates am.S, states am.S) []int {
 func IndexesToStates(allStates am.S, indexes []int) am.S {
 	states := make(am.S, len(indexes))
 	for i, idx := range indexes {
-		if idx == -1 || idx >= len(allStates) {
+		if idx < 0 || idx >= len(allStates) {
 			states[i] = "unknown" + strconv.Itoa(i)
 			continue
 		}
